@@ -561,6 +561,25 @@ Lemma frag_worker_one_reply :
   Forall (fun k => In (k, 1) worker_replies) [KStep; KReset; KGetAttr; KSetAttr; KEnvMethod; KIsWrapped; KHasAttr; KRender; KGetSpaces].
 Proof. split; [reflexivity|]. repeat (apply Forall_cons; [cbn; auto 15|]). apply Forall_nil. Qed.
 
+Lemma frag_skel_get_images : skel_get_images = [SendEach true KRender; RecvEach true].
+Proof. reflexivity. Qed.
+(* which data worker i is sent: its own action / its own (seed, options) / the caller's arguments *)
+Lemma frag_skel_payloads :
+  skel_step_async_payload = [PayOwnAction] /\ skel_reset_payload = [PayOwnSeedOption] /\
+  skel_get_attr_payload = [PayCallArgs] /\ skel_set_attr_payload = [PayCallArgs] /\ skel_env_method_payload = [PayCallArgs] /\
+  skel_env_is_wrapped_payload = [PayCallArgs] /\ skel_has_attr_payload = [PayCallArgs].
+Proof. repeat split; reflexivity. Qed.
+(* the target list is exactly _get_target_remotes(indices); the replies reach the caller in worker order (only unpacking with zip,
+   stacking, storing and returning are applied to them) *)
+Lemma frag_skel_targets_and_order :
+  (skel_get_attr_targets_ok && skel_set_attr_targets_ok && skel_env_method_targets_ok && skel_env_is_wrapped_targets_ok && skel_has_attr_targets_ok)%bool = true /\
+  (skel_step_wait_results_ordered && skel_reset_results_ordered && skel_get_attr_results_ordered && skel_set_attr_results_ordered
+   && skel_env_method_results_ordered && skel_env_is_wrapped_results_ordered && skel_has_attr_results_ordered && skel_get_images_results_ordered)%bool = true.
+Proof. split; reflexivity. Qed.
+(* the worker replies (observation, reward, done, info, reset_info) / (observation, reset_info), reset_info being the one env.reset returned *)
+Lemma frag_worker_reply_shapes : worker_step_reply_ok = true /\ worker_reset_reply_ok = true.
+Proof. split; reflexivity. Qed.
+
 (* the program of a regenerated skeleton over all workers has the send-all / receive-all shape *)
 Lemma skel_prog_all : forall {C} n targets (payload : cmdkind -> nat -> C) k,
   skel_prog n targets payload [SendEach true k; RecvEach true] = sends (seq 0 n) (payload k) ++ recvs (seq 0 n).
